@@ -523,7 +523,13 @@ func runC12(c *Ctx) {
 		var badDel []string
 		nSends, okDel, badDel = c.replyThenDelete()
 		_ = nSends
-		for _, b := range writeFn.Blocks {
+		var wblocks []*ssa.BasicBlock // the writer and the helpers of the package its select arms may be moved into
+		for _, wf2 := range c.familyOf(writeFn) {
+			if wf2 != onResp {
+				wblocks = append(wblocks, wf2.Blocks...)
+			}
+		}
+		for _, b := range wblocks {
 			for _, ins := range b.Instrs {
 				if call, ok := ins.(*ssa.Call); ok && call.Call.StaticCallee() == onResp {
 					// result used in an If whose false edge reaches defaultReplyEvent
